@@ -1675,7 +1675,7 @@ def gen_pth_prog(rng):
     NT = nch + 1
     th = {t: [] for t in range(1, NT + 1)}
     barn = [0, 0, 0, 0]; keydt = [rng.choice((0, 1)) for _ in range(4)]; mkind = [rng.choice((0, 1)) for _ in range(4)]
-    kind = rng.choice(('counter', 'counter', 'handoff', 'barrier', 'keys', 'once', 'detach', 'static', 'staticsync')) if rng.random() > 0.04 else 'racy'
+    kind = rng.choice(('counter', 'counter', 'handoff', 'barrier', 'keys', 'keys', 'once', 'detach', 'static', 'staticsync')) if rng.random() > 0.04 else 'racy'
     ends = lambda t: rng.choice(([], [('RET', 2000 + t, 0, 0)], [('EXIT', 3000 + t, 0, 0)]))
 
     def locked_add(m, v, d, style):
@@ -1753,6 +1753,11 @@ def gen_pth_prog(rng):
             main += body
         main += [('JOIN', t, 0, 0) for t in range(2, NT + 1)]
     elif kind == 'keys':
+        # in half of the programs every key has a destructor and every thread ends holding values: all ending threads
+        # go through destructors, which take a common lock and yield inside (harness/pthprog.c)
+        dtheavy = rng.random() < 0.5
+        if dtheavy:
+            keydt = [1, 1, 1, 1]
         for t in range(2, NT + 1):
             main.append(('CREATE', t, attr(), 0))
             b = []
@@ -1762,6 +1767,8 @@ def gen_pth_prog(rng):
                 if rng.random() < 0.5:
                     b.append(('YIELD', 0, 0, 0))
                 b += [('GETSPEC', rng.randrange(4), 0, 0)]
+            if dtheavy:
+                b += [('SETSPEC', k, 100 * t + 2 * k + rng.choice((1, 2, 2)), 0) for k in rng.sample(range(4), rng.randint(2, 4))]
             th[t] = b + ends(t)
         main += [('SETSPEC', 0, 77, 0), ('GETSPEC', 0, 0, 0)]
         main += [('JOIN', t, 0, 0) for t in range(2, NT + 1)]
@@ -2260,7 +2267,17 @@ def gen_tls_prog(rng, churn=False):
         main += [(OP['JN'], t, 0, 0) for t in order]
     main += [(OP['KGET'], 0, 0, 0), (OP['KDELETE'], 0, 1, 2000), (OP['KDELETE'], 1, 0, 0), (OP['KDELETE'], 1, 0, 0)]
     # in some programs destructor 3 itself ends the thread (myth_exit from inside the destructor)
-    return {'init': [(6, 0, 1)] if (not churn and rng.random() < 0.3) else [], 'bodies': [main] + bodies}
+    init = [(6, 0, 1)] if (not churn and rng.random() < 0.3) else []
+    if 2 in dts and rng.random() < 0.6:
+        # destructor 2 suspends (yields, in some programs blocks on mutex 3 which another thread holds across yields):
+        # the terminating thread may continue on another worker
+        dy = rng.choice((1, 2, 3, 5, 6))
+        init.append((8, 0, dy))
+        if dy & 4:
+            hold = len(bodies) + 1
+            bodies.append([(OP['INC'], 3, rng.choice((1, 3)), 0)] * rng.randint(1, 3))
+            main.insert(len(ops), (OP['CR'], hold, 0, 0)); main.append((OP['JN'], hold, 0, 0))
+    return {'init': init, 'bodies': [main] + bodies}
 
 
 def gen_timed_prog(rng):
